@@ -176,6 +176,40 @@ func runC07(c *Ctx) {
 			cfg.Distance = min(cfg.Distance, cfg.CoreSize-cfg.Length)
 		}
 		gc := gcfg(cfg, []g.SimulatorMode{g.ICWS94, g.NOP94}[r.Intn(2)])
+		if idx%16 == 5 {
+			// the same ;assert line in different programs: its verdict depends on the program's own symbols, every time
+			k := r.Range(2, 9)
+			q := r.Range(1, 50)
+			name := []string{"zst", "STEP", "x", "gap_2"}[r.Intn(4)]
+			line := fmt.Sprintf(";assert %s%%%d\n", name, k)
+			if r.Bool() {
+				line = fmt.Sprintf(";assert (%s-%d)*(%s+1)\n", name, k*q, name)
+			}
+			holds := fmt.Sprintf("%s equ %d\n%sdat 0\n", name, k*q+1, line)
+			fails := fmt.Sprintf("%s equ %d\n%sdat 0\n", name, k*q, line)
+			seq := []string{holds, fails, holds}
+			if r.Bool() {
+				seq = []string{fails, holds, fails, holds}
+			}
+			for i, text := range seq {
+				wd, err, pm := compile(text, gc)
+				cs := map[string]interface{}{"config": gc, "sequence": seq, "position": i}
+				if pm != "" {
+					c.Violate("C07:panic:"+panicSite(pm), pm, cs)
+					return
+				}
+				if text == holds && (err != nil || len(wd.Code) != 1) {
+					c.Violate("C07:rejected:assert", fmt.Sprintf("program %d of a sequence sharing one ;assert line: the condition is non-zero for this program's symbols but it was rejected: %v", i, err), cs)
+					return
+				}
+				if text == fails && err == nil {
+					c.Violate("C07:assert-accepted", fmt.Sprintf("program %d of a sequence sharing one ;assert line: the condition is zero for this program's symbols but it was accepted", i), cs)
+					return
+				}
+			}
+			c.Inc("assert_line_shared_by_programs_with_different_symbols")
+			return
+		}
 		eg := &exprGen{r: r, signRuns: map[int]int{}}
 		// EQUs: pure-number definitions, some of them negative or compound (textual substitution matters)
 		nequ := r.Intn(4)
@@ -272,8 +306,9 @@ func runC07(c *Ctx) {
 			kind = "assert"
 			if !useLabels && r.Chance(1, 3) {
 				// the assert line sits inside a FOR/ROF body: it counts when the block is expanded (1 or 2 times) and
-				// vanishes with the body when the count is 0
-				p.Items = append(p.Items, &asm.For{Counter: "zzc", Count: asm.Lit{V: r.Intn(3)}, Asserts: []asm.Expr{e1}, Body: []asm.Item{dat()}})
+				// vanishes with the body when the count is 0; the counter's name may be part of other names (y/yy, k/k2,
+				// N/NEG, e/coresize, S/CORESIZE): those are other symbols
+				p.Items = append(p.Items, &asm.For{Counter: []string{"zzc", "y", "k", "e", "N", "S", "x2"}[r.Intn(7)], Count: asm.Lit{V: r.Intn(3)}, Asserts: []asm.Expr{e1}, Body: []asm.Item{dat()}})
 				c.Inc("asserts_inside_for_bodies")
 			} else {
 				p.Asserts = []asm.Expr{e1}
